@@ -234,3 +234,8 @@ CORPUS += [
 CORPUS += [
     V("C14", "mlp-dropouts-in-a-plain-list", "rl4co/models/nn/mlp.py", "        self.dropouts = nn.ModuleList()", "        self.dropouts = []", "C14.g"),
 ]
+
+CORPUS += [
+    V("C07", "ffsp-schedule-sentinel-minus-one", _FF, "            fill_value=-999999,", "            fill_value=-1,", "C07.k"),
+    V("C07", "ffsp-machine-getter-reads-the-stage-table", _FF, "        return self.machine_table[pomo_idx, sub_time_idx]", "        return self.stage_machine_table[pomo_idx, sub_time_idx]", "C07.k"),
+]
